@@ -478,7 +478,7 @@ def main(ctx):
     ctx.assumptions = ["GNU ld 2.40 is the arbiter; the model only calibrates and names the rule",
                        "archives follow all objects on the command line (ld is order-sensitive there; that is C03's subject)"]
     tools.wild()
-    n = ctx.pick(100, 1200)
+    n = ctx.pick(100, 500)
     jobs = [f"pinned{i}" for i in range(len(pinned_cases()))] + list(range(n))
     if ctx.replay is not None:
         c = str(ctx.replay["case"])
